@@ -1,1 +1,74 @@
-// verification hook for h263/src/decoder/picture.rs (compiled only under cfg(kani) or cfg(ruffle_rs_h263_rs_verif))
+// Hook module of h263/src/decoder/picture.rs: R6 discharge — the float sub-expression replaced in the Verus unit by
+// `verif_ceil_half_f32` is proved equal to (x + 1) / 2 for all 65,536 values; DecodedPicture::new plane sizes on concrete formats.
+#![allow(dead_code, unused_imports)]
+use super::*;
+use crate::types::{CustomPictureFormat, PictureOption, PictureTypeCode, PixelAspectRatio};
+
+include!("/verif/hooks/common.rs");
+
+fn h_ceil_half<S: Src>(s: &mut S) {
+    let w = s.u16();
+    // the SAME expression text as in DecodedPicture::new
+    let chroma_w = (w as f32 / 2.0).ceil() as usize;
+    chk!(s, chroma_w == (w as usize + 1) / 2, "picture.new.ceil_half: (w as f32 / 2.0).ceil() as usize == (w + 1) / 2 for every u16");
+    s.reach();
+}
+
+fn header() -> Picture {
+    Picture {
+        version: None, temporal_reference: 0, format: None, options: PictureOption::empty(), has_plusptype: false, has_opptype: false,
+        picture_type: PictureTypeCode::IFrame, motion_vector_range: None, slice_submode: None, scalability_layer: None,
+        reference_picture_selection_mode: None, prediction_reference: None, backchannel_message: None, reference_picture_resampling: None,
+        quantizer: 1, multiplex_bitstream: None, pb_reference: None, pb_quantizer: None, extra: Vec::new(),
+    }
+}
+// C13 on the real constructor for symbolic small sizes (w, h <= 40): plane lengths and chroma row length
+fn h_new_sizes<S: Src>(s: &mut S) {
+    let (w, h) = (s.u8() as u16, s.u8() as u16);
+    s.assume(w <= 40 && h <= 40);
+    let fmt = SourceFormat::Extended(CustomPictureFormat { pixel_aspect_ratio: PixelAspectRatio::Square, picture_width_indication: w, picture_height_indication: h });
+    match DecodedPicture::new(header(), fmt) {
+        Some(p) => {
+            let (cw, ch) = ((w as usize + 1) / 2, (h as usize + 1) / 2);
+            chk!(s, p.as_luma().len() == w as usize * h as usize, "picture.new.post_luma_len: luma plane holds width*height samples");
+            chk!(s, p.as_chroma_b().len() == cw * ch && p.as_chroma_r().len() == cw * ch, "picture.new.post_chroma_len: chroma planes hold ceil(w/2)*ceil(h/2) samples");
+            chk!(s, p.chroma_samples_per_row() == cw, "picture.new.post_chroma_row: chroma row length == ceil(w/2)");
+        }
+        None => {
+            chk!(s, false, "picture.new.post_some: a sized format yields a picture");
+        }
+    }
+    chk!(s, DecodedPicture::new(header(), SourceFormat::Reserved).is_none(), "picture.new.post_none: the reserved format yields no picture");
+    s.reach();
+}
+
+#[cfg(kani)]
+mod proofs {
+    use super::*;
+    #[kani::proof]
+    fn ceil_half() {
+        h_ceil_half(&mut KSrc)
+    }
+    #[kani::proof]
+    #[kani::unwind(4)]
+    fn new_sizes() {
+        h_new_sizes(&mut KSrc)
+    }
+}
+
+#[cfg(all(test, not(kani)))]
+mod replay {
+    use super::*;
+    fn dispatch(name: &str, r: &mut RSrc) -> bool {
+        match name {
+            "ceil_half" => h_ceil_half(r),
+            "new_sizes" => h_new_sizes(r),
+            _ => return false,
+        }
+        true
+    }
+    #[test]
+    fn verif_replay() {
+        verif_replay_main(dispatch)
+    }
+}
